@@ -336,6 +336,12 @@ func Harness_C17_NoAbortAfterCutoverHistory() {
 	err := c17Apply(e, 6, c17GuardOf(mid2Task), c17RuntimeGuardOf(mid2Meta))
 	postTask, _ := e.read()
 	aborted := err == nil && postTask.Status == ChannelMigrationStatusAborted && mid2Task.Status != ChannelMigrationStatusAborted
+	if second == 1 {
+		// ResetChannelWriteFenceToPreCutover is accepted in the post-promotion phase once the fence
+		// lease has expired and moves the task back to WarmCatchUp (recorded finding C17-F2)
+		zzsym.AssertKnown(!aborted, "a committed or promoted task was aborted after one more command", "C17-F2", true)
+		return
+	}
 	zzsym.AssertKnown(!aborted, "a committed or promoted task was aborted after one more command", "C17-F1", second == 7 || second == 8)
 }
 
